@@ -2,6 +2,7 @@ package regex
 
 import (
 	"regexp"
+	stdSync "sync"
 
 	schema "github.com/jsightapi/jsight-schema-core"
 	"github.com/jsightapi/jsight-schema-core/bytes"
@@ -21,6 +22,10 @@ type RSchema struct {
 	compileOnce   sync.ErrOnce
 	generatorOnce sync.ErrOnceWithValue[*reggen.Generator]
 	generatorSeed int64
+
+	// generatorMx protects the generator: it keeps the state of its random
+	// source, so it can't be used concurrently.
+	generatorMx stdSync.Mutex
 }
 
 var _ schema.Schema = &RSchema{}
@@ -89,6 +94,8 @@ func (s *RSchema) generateExample() ([]byte, error) {
 		return nil, err
 	}
 
+	s.generatorMx.Lock()
+	defer s.generatorMx.Unlock()
 	return []byte(g.Generate(1)), nil
 }
 
